@@ -2,7 +2,8 @@
 journaling wrappers instrument but the shared alphabet never makes: tensor / attribute / model
 construction, the Node domain/version/overload and Function name/domain/overload setters,
 Value.merge_shapes, direct ``attributes[key] = attr``, keyword-argument call forms, Graph.clone,
-and the journal markers ``J_enter`` / ``J_exit`` that are interleaved in a history (so that any
+and the journal markers ``J_enter`` / ``J_exit`` (plus ``J_hook`` / ``J_hook_clear`` / ``J_fault``, which
+configure the journals through their hook API) that are interleaved in a history (so that any
 sub-list of a history is still a well-formed, replayable plan).
 
 Nothing here decides a verdict; it only widens the workload.
@@ -17,7 +18,8 @@ from vfpy.gen_ops import Gen
 from vfpy.world import OPS, Result, Skip, World
 
 XOPS: dict = {}
-MARKERS = {"J_enter", "J_exit"}
+MARKERS = {"J_enter", "J_exit", "J_hook", "J_hook_clear", "J_fault"}
+HOOK_KINDS = ["observe", "observe", "observe", "fault", "fault", "touch"]
 
 
 def xop(name):
@@ -487,6 +489,21 @@ def _j_exit(w, *a):
     raise Skip()
 
 
+@xop("J_hook")
+def _j_hook(w, *a):
+    raise Skip()
+
+
+@xop("J_hook_clear")
+def _j_hook_clear(w, *a):
+    raise Skip()
+
+
+@xop("J_fault")
+def _j_fault(w, *a):
+    raise Skip()
+
+
 # =============================================================================================
 # generator
 # =============================================================================================
@@ -702,7 +719,54 @@ class Gen20:
         return ["kw_func", self.g.any_g(), self.rng.choice(["f", "g", "h"])]
 
 
-def insert_markers(rng, ops: list, max_depth: int = 3) -> list:
+def insert_markers(rng, ops: list, max_depth: int = 3, faultable=()) -> list:
+    """Journal markers (see ``_journal_markers``) and then, when ``faultable`` names operation kinds,
+    markers that configure the journals through their public hook API:
+
+    ``["J_hook", kind]``: ``add_hook`` on the innermost active journal - "observe" (notes what it is
+    told), "fault" (raises when the executor arms it), "touch" (performs IR calls of its own on a
+    private object).  ``["J_hook_clear"]``: ``clear_hooks()``.  ``["J_fault"]``: the next item, if its
+    kind is in ``faultable`` and a journal is active, is executed with the innermost journal's fault
+    hook armed; the caller handles the hook's exception and repeats the call.  All of them are no-ops
+    outside a journal and in the plain run."""
+    items = _journal_markers(rng, ops, max_depth)
+    if not faultable:
+        return items
+    style = rng.choice(["none", "observe", "fault", "fault", "mixed", "mixed", "mixed"])
+    if style == "none":
+        return items
+    p_hook_at_enter = {"observe": 0.8, "fault": 0.3, "mixed": 0.6}[style]
+    p_hook_later = {"observe": 0.03, "fault": 0.01, "mixed": 0.03}[style]
+    p_fault = {"observe": 0.0, "fault": 0.4, "mixed": 0.25}[style]
+    p_clear = 0.0 if style == "fault" else 0.015
+    kinds = ["observe"] if style == "observe" else HOOK_KINDS
+    out: list = []
+    depth = 0  # approximate: an "op_exc" exit only happens when an IR call raised
+    for it in items:
+        if it[0] == "J_enter":
+            out.append(it)
+            depth = min(max_depth, depth + 1)
+            while rng.random() < p_hook_at_enter and len(out) < 400:
+                out.append(["J_hook", rng.choice(kinds)])
+                if rng.random() < 0.5:
+                    break
+            continue
+        if it[0] == "J_exit":
+            out.append(it)
+            depth = max(0, depth - int(it[2]))
+            continue
+        if depth > 0:
+            if rng.random() < p_hook_later:
+                out.append(["J_hook", rng.choice(kinds)])
+            if rng.random() < p_clear:
+                out.append(["J_hook_clear"])
+            if it[0] in faultable and rng.random() < p_fault:
+                out.append(["J_fault"])
+        out.append(it)
+    return out
+
+
+def _journal_markers(rng, ops: list, max_depth: int = 3) -> list:
     """Interleave journal markers in a history: a random properly nested bracket structure of depth
     <= max_depth.  ``["J_enter", reuse]``: enter a journal (reuse=1: re-enter the most recently closed
     Journal object).  ``["J_exit", mode, levels]``: leave ``levels`` journals; mode "normal" (only
